@@ -23,9 +23,9 @@ import (
 
 type c03Case struct {
 	Backend backends.Kind `json:"backend"`
-	Keys    []string      `json:"keys"`              // live keys
-	Gone    []string      `json:"gone,omitempty"`    // keys that were stored and deleted again before listing
-	Marked  []string      `json:"marked,omitempty"`  // mem only: keys deleted while versioning is enabled (delete markers)
+	Keys    []string      `json:"keys"`             // live keys
+	Gone    []string      `json:"gone,omitempty"`   // keys that were stored and deleted again before listing
+	Marked  []string      `json:"marked,omitempty"` // mem only: keys deleted while versioning is enabled (delete markers)
 	Prefix  string        `json:"prefix"`
 	Delim   string        `json:"delim"`
 	V2      bool          `json:"v2,omitempty"`
